@@ -188,3 +188,14 @@ Fixpoint cell_content (fuel : nat) (h : heap) (i : oid) : content :=
     | _ => NotACell
     end
   end.
+
+(* what an object currently holds, as a caller can observe it *)
+Inductive view := VCell (bits : list bool) (refs : list oid) | VSlice (bits : list bool) (refs : list oid)
+                | VBuilder (bits : list bool) (refs : list oid) | VNothing.
+Definition obj_view (h : heap) (i : oid) : view :=
+  match nth_error (objs h) i with
+  | Some (OCell ba ra) => VCell (get_bits h ba) (get_refs h ra)
+  | Some (OSlice ba ra off) => VSlice (get_bits h ba) (skipn off (get_refs h ra))
+  | Some (OBuilder ba ra) => VBuilder (get_bits h ba) (get_refs h ra)
+  | None => VNothing
+  end.
